@@ -8,7 +8,7 @@ if ! git -C $WT apply --3way "$PATCH" >/dev/null 2>&1 && ! git -C $WT apply "$PA
   echo "PATCH-DOES-NOT-APPLY $PATCH"; git -C /repo worktree remove --force $WT; exit 3
 fi
 cd "$(dirname "$0")/.."
-VERIF_REPO=$WT ./check $ID $TIER 2>&1 | grep -E "VIOLATION|kind=|HARNESS|^\[" | head -12
+VERIF_EVIDENCE_DIR=/tmp/evid_seedtest VERIF_REPO=$WT ./check $ID $TIER 2>&1 | grep -E "VIOLATION|kind=|HARNESS|^\[" | head -12
 rc=${PIPESTATUS[0]}
 git -C /repo worktree remove --force $WT; rm -f replays/$ID/fail-*.json
 exit $rc
